@@ -109,23 +109,30 @@ def code_to_spec(ctx, arm, ncases):
         if n and rng.random() < 0.3:
             mask[:min(n, int(rng.integers(1, 4)))] = True      # NaN in the first steps
         data[mask] = np.nan
-        nanparam = order > 0 and rng.random() < 0.04
+        nanparam = order > 0 and rng.random() < 0.06
         phi = np.array(c, dtype=float) / 2.0
-        if nanparam:
+        # the NaN parameter is a coefficient, the mean or the (explicit) initial value
+        nankind = ["coef", "mean", "ini"][int(rng.integers(0, 3))] if nanparam else ""
+        if nankind == "coef":
             phi[int(rng.integers(0, order))] = np.nan
         fn = "sim" if rng.random() < 0.5 else "res"
         d0 = data.copy()
         p0 = phi.copy()
         kw = {} if (ini == m and rng.random() < 0.5) else {"sim_ini": float(ini)}
+        fm = float(m)
+        if nankind == "mean":
+            fm = float("nan")
+        elif nankind == "ini":
+            kw = {"sim_ini": float("nan")}
         err = False
         out = inv = []
         try:
             if fn == "sim":
-                o = arm.armodel_sim(phi, data, float(m), **kw)
-                i2 = arm.armodel_residual(phi, o, float(m), **kw)
+                o = arm.armodel_sim(phi, data, fm, **kw)
+                i2 = arm.armodel_residual(phi, o, fm, **kw)
             else:
-                o = arm.armodel_residual(phi, data, float(m), **kw)
-                i2 = arm.armodel_sim(phi, o, float(m), **kw)
+                o = arm.armodel_residual(phi, data, fm, **kw)
+                i2 = arm.armodel_sim(phi, o, fm, **kw)
             out, inv = _scaled(o, sc), _scaled(i2, sc)
         except Exception:
             err = True
@@ -142,7 +149,7 @@ def code_to_spec(ctx, arm, ncases):
                     defaults_ok = bool(np.array_equal(arm.armodel_residual(phi, data), arm.armodel_residual(phi, data, mu, mu), equal_nan=True))
             except Exception:
                 defaults_ok = False
-        rec = {"fn": fn, "c": [int(x) for x in c], "m": m, "ini": ini, "sc": sc, "nanparam": bool(nanparam),
+        rec = {"fn": fn, "c": [int(x) for x in c], "m": m, "ini": ini, "sc": sc, "nanparam": bool(nanparam), "nankind": nankind,
                "data": [NAN if np.isnan(v) else int(v) for v in data], "err": err, "out": out, "inv": inv,
                "argsame": same, "default_ini": not kw, "defaults_ok": defaults_ok}
         recs.append(rec)
